@@ -17,7 +17,7 @@ Fixpoint str_eqb (a b : str) : bool :=
   | _, _ => false
   end.
 
-Fixpoint starts_with (s p : str) : bool :=
+Fixpoint starts_with (s p : str) {struct p} : bool :=
   match p, s with
   | [], _ => true
   | c :: p', d :: s' => N.eqb c d && starts_with s' p'
